@@ -216,6 +216,9 @@ class Oracle:
         self.limit = limit
         self.toks = []
         self.eof = False
+        self.wpaused = False
+        self.lost = False
+        self.lost_exc = None
 
     def deliver(self, ev):
         kind, arg = ev
@@ -229,6 +232,20 @@ class Oracle:
             if not self.eof and arg is not None:
                 self.toks.append(('x', arg))
             self.eof = True
+            self.lost = True
+            self.lost_exc = arg
+        elif kind == 'pausew':
+            self.wpaused = True
+        elif kind == 'resumew':
+            self.wpaused = False
+
+    def drain_expect(self):
+        """documented outcome of drain() in the current state: 'block', ('ok',), ('raise', code) or ('pipe',)"""
+        if self.lost:
+            if self.lost_exc is not None:
+                return ('raise', self.lost_exc)
+            return ('pipe',) if self.wpaused else ('ok', b'')
+        return 'block' if self.wpaused else ('ok', b'')
 
     def lead(self):
         out = []
@@ -248,6 +265,13 @@ class Oracle:
     def judge(self, op, res):
         """returns None if fine, else a description of the deviation"""
         k = op[0]
+        if k == 'drain':
+            want = self.drain_expect()
+            if want == 'block':
+                return 'drain() returned %r while writing is paused and the channel is open' % (res,)
+            if tuple(res) != tuple(want):
+                return 'drain() ended with %r, expected %r (paused=%s, lost=%s)' % (res, want, self.wpaused, self.lost)
+            return None
         d = self.lead()
         nx = self.toks[len(d)][1] if self.next_is_exn() else None
         at_end = not self.next_is_exn()          # nothing but (possibly) EOF after the leading data
@@ -389,7 +413,7 @@ def execute(limit, prog, sched):
             while judged[0] < len(results):
                 i = judged[0]
                 op = prog[i]
-                if op[0] != 'drain':
+                if True:
                     if i in snaps:
                         # readuntil fixes its result before the resume batch is delivered
                         tmp = Oracle(limit)
@@ -440,6 +464,11 @@ def execute(limit, prog, sched):
                 chan.batches = []
         ateof = reader.at_eof()
         if not state['done']:
+            i = len(results)
+            if sched and sched[-1][0] == 'run' and i < len(prog) and prog[i][0] == 'drain' \
+                    and orc.drain_expect() != 'block':
+                devs.append((i, 'drain() is still waiting although %s' %
+                             ('the channel is gone' if orc.lost else 'writing has been resumed')))
             coro.close()
         return (results, list(chan.calls), ateof), devs
     finally:
